@@ -73,6 +73,14 @@ def val_eq(eng, st, a, b):
         if is_strlike_ty(ta):
             if eng.atom_strings: return lazy_atom(a).t == lazy_atom(b).t
             return str_eq(lazy_str(eng, a), lazy_str(eng, b))
+        mo = re.match(r'^(?:std::option::)?Option<(.*)>$', ta, re.S)
+        if mo:
+            it = mo.group(1).strip()
+            return And(a.disc == b.disc, Or(a.disc != bv64(1), val_eq(eng, st, a.kid('Some.0', it), b.kid('Some.0', it))))
+        if ta.startswith('(') and ta.endswith(')'):
+            from .mir import split_top
+            parts = split_top(ta[1:-1])
+            return And([val_eq(eng, st, a.kid(str(i), t_.strip()), b.kid(str(i), t_.strip())) for i, t_ in enumerate(parts)])
         h = eng.eq_hook(a, b) if getattr(eng, 'eq_hook', None) else None
         if h is not None: return h
         raise EngineError(f'equality of lazies {a!r} {b!r}')
@@ -187,13 +195,16 @@ def mk_iter(eng, st, v, mode='ref', ref=None):
     raise EngineError(f'iterator over {v!r}')
 
 def lazy_item(eng, l, i, mode):
+    """item of a lazily instantiated container; borrowing modes yield references to the (lazy) elements"""
     t = l.ty
     if mode in ('kv', 'keys', 'values', 'kvval'):
         k = l.kid(f'[{i}].k', elem_ty(t, 'k')); v = l.kid(f'[{i}].v', elem_ty(t, 'v'))
+        if mode != 'kvval': k = Ref(k, ()); v = Ref(v, ())
         if mode == 'keys': return k
         if mode == 'values': return v
         return Agg((k, v))
-    return l.kid(f'[{i}]', elem_ty(t))
+    x = l.kid(f'[{i}]', elem_ty(t))
+    return x if mode == 'val' else Ref(x, ())
 
 def pull(eng, st, fr, it, cont):
     """advance iterator `it` in state st; cont(st, fr, item_or_None, new_it) -> action. Returns an action."""
@@ -485,9 +496,9 @@ def m_vec_first(ctx):
         return ctx.ret(some(Ref(r.base, r.path + (('i', i),)) if isinstance(r, Ref) and isinstance(r.base, int) else v.items[i]))
     if isinstance(v, Lazy):
         ln = lz_len(ctx.eng, v)
-        if not last: return ctx.ret(opt(ln != bv64(0), v.kid('[0]', elem_ty(v.ty))))
+        if not last: return ctx.ret(opt(ln != bv64(0), Ref(v.kid('[0]', elem_ty(v.ty)), ())))
         alts = [(ln == bv64(0), none())]
-        for i in range(lz_cap(ctx.eng, v)): alts.append((ln == bv64(i + 1), some(v.kid(f'[{i}]', elem_ty(v.ty)))))
+        for i in range(lz_cap(ctx.eng, v)): alts.append((ln == bv64(i + 1), some(Ref(v.kid(f'[{i}]', elem_ty(v.ty)), ()))))
         return ctx.forks(alts)
     raise EngineError(f'first/last of {v!r}')
 @model(r'^<(?:std::vec::)?Vec<.*> as Index(?:Mut)?<usize>>::index(?:_mut)?$|^<\[.*\] as Index(?:Mut)?<usize>>::index(?:_mut)?$')
@@ -503,7 +514,7 @@ def m_vec_index(ctx):
     if isinstance(v, Lazy):
         ln = lz_len(ctx.eng, v); alts = []
         for k in range(lz_cap(ctx.eng, v)):
-            alts.append((And(i == bv64(k), ULT(i, ln)), v.kid(f'[{k}]', elem_ty(v.ty))))
+            alts.append((And(i == bv64(k), ULT(i, ln)), Ref(v.kid(f'[{k}]', elem_ty(v.ty)), ())))
         alts.append((UGE(i, ln), Panic('index out of bounds')))
         return ctx.forks(alts)
     raise EngineError(f'index of {v!r}')
@@ -588,6 +599,7 @@ def _map_get(ctx, what):
         for i in range(cap):
             k = m.kid(f'[{i}].k', elem_ty(m.ty, 'k')); v = m.kid(f'[{i}].v', elem_ty(m.ty, 'v'))
             e = And(ULT(bv64(i), ln), val_eq(eng, ctx.st, k, key))
+            k = Ref(k, ()); v = Ref(v, ())
             res = {'get': some(v), 'contains': BoolVal(True), 'get_full': some(Agg((bv64(i), k, v))), 'get_index_of': some(bv64(i)), 'get_key_value': some(Agg((k, v)))}[what]
             alts.append((And([e] + miss), res)); miss.append(Not(e))
         alts.append((And(miss) if miss else BoolVal(True), none() if what != 'contains' else BoolVal(False)))
@@ -651,7 +663,7 @@ def m_map_get_index(ctx):
     if isinstance(m, Lazy):
         ln = lz_len(ctx.eng, m); alts = []
         for k in range(lz_cap(ctx.eng, m)):
-            kk = m.kid(f'[{k}].k', elem_ty(m.ty, 'k')); vv = m.kid(f'[{k}].v', elem_ty(m.ty, 'v'))
+            kk = Ref(m.kid(f'[{k}].k', elem_ty(m.ty, 'k')), ()); vv = Ref(m.kid(f'[{k}].v', elem_ty(m.ty, 'v')), ())
             alts.append((And(i == bv64(k), ULT(i, ln)), some(kk if is_set else Agg((kk, vv)))))
         alts.append((UGE(i, ln), none()))
         return ctx.forks(alts)
@@ -787,3 +799,38 @@ def m_is_control(ctx):
 def m_generic_eq(ctx):
     e = val_eq(ctx.eng, ctx.st, ctx.args[0], ctx.args[1])
     return ctx.ret(Not(e) if ctx.callee.endswith('::ne') else e)
+
+# ---------------------------------------------------------------------------- generic PartialEq plumbing (after the specific models)
+
+def _ret_bool(ctx, neg):
+    dst, tgt = ctx.dst, ctx.tgt
+    if isinstance(ctx, __import__('m2s.engine', fromlist=['CtxK']).CtxK):
+        outer = ctx
+        return lambda eng, st, fr, kd, rv: outer.after(eng, st, fr, outer.kdata, (Not(eng.term(rv, 'bool')) if neg else rv))
+    return lambda eng, st, fr, kd, rv: _finish(eng, st, fr, dst, tgt, (Not(eng.term(rv, 'bool')) if neg else rv))
+
+@model(r'^<&(?:mut )?(.*) as PartialEq(?:<.*>)?>::(eq|ne)$')
+def m_ref_eq(ctx):
+    """`&A == &B` compares the referents"""
+    m = re.match(r'^<&(?:mut )?(.*) as PartialEq(?:<.*>)?>::(eq|ne)$', ctx.callee, re.S)
+    inner = m.group(1).strip(); op = m.group(2)
+    a = ctx.args[0]; b = ctx.args[1]
+    a1 = ctx.eng.read_ref(ctx.st, a) if isinstance(a, Ref) else a
+    b1 = ctx.eng.read_ref(ctx.st, b) if isinstance(b, Ref) else b
+    return ctx.eng.call_by_name(ctx.st, ctx.fr, f'<{inner} as PartialEq>::eq', (a1, b1), _ret_bool(ctx, op == 'ne'))
+
+@model(r'^<(.*) as PartialEq(?:<.*>)?>::ne$')
+def m_default_ne(ctx):
+    """`ne` is the provided method: !eq"""
+    m = re.match(r'^<(.*) as PartialEq(?:<.*>)?>::ne$', ctx.callee, re.S)
+    return ctx.eng.call_by_name(ctx.st, ctx.fr, f'<{m.group(1).strip()} as PartialEq>::eq', ctx.args, _ret_bool(ctx, True))
+
+@model(r'^<id_arena::Id<.*> as PartialEq>::eq$')
+def m_id_eq(ctx):
+    a = ctx.deref(ctx.args[0]); b = ctx.deref(ctx.args[1])
+    def parts(x):
+        if isinstance(x, Lazy): return x.kid('0', 'usize').scalar('usize'), x.kid('1', 'u32').scalar('u32')
+        if isinstance(x, Agg): return ctx.term(x.f[0], 'usize'), ctx.term(x.f[1], 'u32')
+        raise EngineError(f'id_arena::Id value {x!r}')
+    ai, aa = parts(a); bi, ba = parts(b)
+    return ctx.ret(And(ai == bi, aa == ba))
